@@ -1280,9 +1280,37 @@ def _expected(st):
     return _expected_fixed(st['f'])
 
 
-def _check_events(f, rec, log, exp):
+def never_aborts(t):
+    """is the tree made only of constructs that cannot RAISE (numbers, cells, bound variables, + - * / on them, SUM / ID / ARGS /
+    K7 calls, ranges as arguments of SUM)?  Then an error in its record is an error VALUE (a division by zero, text under
+    arithmetic): nothing was aborted and every reference and call is still evaluated and reported"""
+    if t == 'blank':
+        return True
+    k = t[0]
+    if k == 'num':
+        return True
+    if k == 'cell':
+        return ref_split(t[1]) is not None
+    if k == 'var':
+        return t[1][0] in VARS and len(t[1]) == 1
+    if k == 'bin':
+        return t[1] in ('+', '-', '*', '/') and never_aborts(t[2]) and never_aborts(t[3])
+    if k == 'call':
+        if t[1] not in ('SUM', 'ID', 'ARGS', 'K7') or t[2] not in ('flat', 'empty') or t[4]:
+            return False
+        for x in t[3]:
+            if x != 'blank' and x[0] == 'range':
+                if t[1] != 'SUM' or ref_split(x[1]) is None or ref_split(x[2]) is None:
+                    return False
+            elif not never_aborts(x):
+                return False
+        return True
+    return False
+
+
+def _check_events(f, rec, log, exp, total=False):
     """one event per reference / call node, in post-order, each with the fields the statement prescribes"""
-    if rec['error'] is None:
+    if rec['error'] is None or total:
         if len(log) != len(exp):
             return 'formula %r raised %d events, its tree has %d reference/call nodes: %r' % (f, len(log), len(exp), _brief(log))
     elif len(log) > len(exp):
@@ -1351,13 +1379,14 @@ def oracle(c, ans):
         exp = _expected(c)
         if exp is None:
             return None
-        return _check_events(ans['f'], ans['rec'], ans['log'], exp)
+        return _check_events(ans['f'], ans['rec'], ans['log'], exp, total='t' in c and never_aborts(_fix(c['t'])))
     if c['kind'] == 'session':
         # the statement, on every event of this step, whatever the parser evaluated before
         exp = _expected(_step(c))
         if exp is None:
             return None
-        msg = _check_events(ans['f'], ans['rec'], ans['log'], exp)
+        st = _step(c)
+        msg = _check_events(ans['f'], ans['rec'], ans['log'], exp, total='t' in st and never_aborts(_fix(st['t'])))
         if msg and ans['before']:
             msg = 'after %r on the same parser: %s' % (ans['before'], msg)
         return msg
